@@ -71,17 +71,26 @@ def oracle(case: Case, out: str):
         if "#STATE" in g:
             return ("stack-or-invalidated-left", f"request {c.reqs[i]}: evaluation stack or invalidated set not empty after the request")
     kind = dict(t.split("=", 1) for t in case.tags if "=" in t).get("kind", "ranked")
+    if "mutating" in case.tags:
+        # set_input / delete_arrays of inputs between the requests: the inputs are not fixed, the statement does not
+        # say what stays valid (the correspondence with the model still binds every answer and the final store)
+        return None
     tbs, ctx, E5 = rs.build_system(c)
     # (i) no self-dependent variable: every request returns what a fresh simulation returns
-    if kind == "ranked":
+    if kind == "ranked" and c.msl >= 1:
         for i, r in enumerate(c.reqs):
-            if r[0] not in ("calc", "add"):
+            if r[0] not in ("calc", "add", "div"):
                 continue
             fresh = rs.build_simulation(c, tbs, E5)
             try:
                 p = parse_period_token(r[2])
-                x = fresh.calculate(f"v{r[1]}", p) if r[0] == "calc" else fresh.calculate_add(f"v{r[1]}", p)
-                want = "ok:" + rs.canon_array(x)
+                if r[0] == "div":
+                    x = fresh.calculate_divide(f"v{r[1]}", p)
+                    tgt = rs.div_target(c.vars[r[1]], r[2]) if r[1] < len(c.vars) else None
+                    want = "ok:" + (rs.canon_share(x, tgt[1]) if tgt else "~unexpected")
+                else:
+                    x = fresh.calculate(f"v{r[1]}", p) if r[0] == "calc" else fresh.calculate_add(f"v{r[1]}", p)
+                    want = "ok:" + rs.canon_array(x)
             except Exception as exc:
                 want = rs.classify(exc)
             if got[i] != want:
@@ -127,21 +136,38 @@ def nontrivial(case: Case, out: str) -> bool:
 
 
 def generate(rng: random.Random, tier: str):
-    n = 12000 if tier == "quick" else 100000
+    n = 10500 if tier == "quick" else 90000
     out = []
     for i in range(n):
         kind = "spiral" if rng.random() < 0.6 else "ranked"
-        msl = rng.choice([1, 1, 1, 2, 3])
-        c = rs.gen_case(rng, kind=kind, msl=msl, nreq=rng.randint(2, 6))
+        msl = rng.choice([1, 1, 1, 2, 3, 1, 1, 1, 2, 3, 1, 1, 1, 2, 3, 0])
+        # a third of the ranked systems use the extended language (DIVIDE reads, parameters)
+        ext = {"divide", "params"} if kind == "ranked" and rng.random() < 0.35 else None
+        c = rs.gen_case(rng, kind=kind, msl=msl, nreq=rng.randint(2, 6), features=ext)
         if kind == "spiral":
             # consumers requested after the spiral: the shape that pollutes the cache
             months = rs.MONTHS
             c.reqs = [("calc", rng.randrange(len(c.vars)), rng.choice(months[1:])) for _ in range(rng.randint(2, 6))]
-        out.append(_case(c, (f"kind={kind}", f"msl={msl}")))
+        tags = (f"kind={kind}", f"msl={msl}")
+        # 40%: the other entry points between the requests -- calculate_divide, get_array, delete_arrays of computed
+        # values (all inside the statement: the inputs stay fixed); 12%: set_input / delete_arrays of inputs as well
+        u = rng.random()
+        if u < 0.40:
+            c.reqs = rs.extend_requests(rng, c.vars, c.reqs, c.nP, c.nG, c.inputs, mutate=False)
+        elif u < 0.52:
+            c.reqs = rs.extend_requests(rng, c.vars, c.reqs, c.nP, c.nG, c.inputs, mutate=True)
+            if any(r[0] == "set" or (r[0] == "del" and any(iv == r[1] for (iv, _, _) in c.inputs)) for r in c.reqs):
+                tags += ("mutating",)
+        if kind == "spiral" and "mutating" not in tags and any(r[0] == "del" for r in c.reqs):
+            # with self-dependent variables a value computed bottom-up (each step served from the store) cannot always be
+            # recomputed top-down once intermediate values are deleted: the spiral heuristic cuts the longer chain.  The
+            # clause "given the other readable values" then compares two different situations: correspondence only.
+            tags += ("mutating",)
+        out.append(_case(c, tags))
         # a permutation of the same requests on the same system
         if len(c.reqs) > 1 and rng.random() < 0.5:
             c2 = rs.derive(c, reqs=rng.sample(c.reqs, len(c.reqs)))
-            out.append(_case(c2, (f"kind={kind}", f"msl={msl}", "permuted")))
+            out.append(_case(c2, tags + ("permuted",)))
     return out
 
 
@@ -162,6 +188,17 @@ def corpus():
     E = rs.Var(vtype="float", unit="eternity", dflt=0, formulas=[(1, ("o2", 0, ("c", 5), ("v", 0, "fx:" + M[2], False)))])
     W = rs.Var(vtype="float", unit="month", dflt=0, formulas=[(1, ("o2", 0, ("c", 100), ("v", 1, "this_year", False)))])
     out.append(_case(rs.SysCase(1, 1, [0], 1, [X, E, W], [], [("calc", 0, M[3])]), ("kind=spiral", "corpus", "F-C02c")))
+    # the other entry points between the requests, inputs fixed: a deleted value is computed again, get_array never computes
+    import datetime as dt
+    y0 = rs.Var(vtype="float", unit="year", dflt=4)
+    m1 = rs.Var(vtype="int", unit="month", dflt=0, formulas=[(1, ("o2", 0, ("o1", rs.OP_DIVIDE, ("v", 0, "same", False)), ("o1", rs.OP_PARAM, ("v", 0, "same", False))))])
+    m2 = rs.Var(vtype="float", unit="month", dflt=0, formulas=[(1, ("o2", 0, ("v", 1, "same", False), ("v", 1, "last_month", False)))])
+    reqs = [("calc", 2, M[3]), ("get", 1, M[2]), ("del", 1, "year/2018,1,1/1"), ("get", 1, M[2]), ("div", 0, M[3]), ("calc", 2, M[3]), ("del", 2, "*"),
+            ("calc", 1, M[2]), ("out", 1, M[3]), ("calc", 2, M[3]), ("get", 2, M[3])]
+    c = rs.SysCase(2, 1, [0, 0], 1, [y0, m1, m2], [(0, "year/2018,1,1/1", [25, -25])], reqs,
+                   params=[[(dt.date(2017, 1, 1).toordinal(), 3), (dt.date(2018, 2, 1).toordinal(), 5)]], outputs=[2, 1, 0])
+    out.append(_case(c, ("kind=ranked", "corpus", "entry-points")))
+    out.append(_case(rs.derive(c, reqs=list(reversed(reqs))), ("kind=ranked", "corpus", "entry-points", "permuted")))
     return out
 
 
@@ -176,10 +213,15 @@ PROP = Prop(
           "permutation of them as a second case; compared with the model: every returned value or error class and, at the end, the complete set "
           "of known (variable, period) values; oracle: (i) for systems without self-dependent variable each request equals a fresh simulation's "
           "answer, (ii) every retained value is recomputed by a fresh real simulation fed the inputs and the other retained values. "
+          "A third of the ranked systems use the extended language (DIVIDE reads, dated parameters); max_spiral_loops also 0 (every formula is cut); 40% of the "
+          "sequences mix in the other entry points with the inputs fixed -- calculate_divide, calculate_output, requests for unknown variables, refused "
+          "calculate_add, get_array (Period / text / int), delete_arrays of computed values (one period, all periods of a year, all) -- and stay under the "
+          "full oracle; 12% also set_input and delete_arrays of inputs between the requests (tag `mutating`: the statement does not apply, the "
+          "correspondence with the model still binds every answer and the final store). "
           "Non-trivial = some value returned and some value retained; distinct = distinct protocol lines."),
     assumptions=[
         "formulas are those of the expression DSL; values are small integers exactly representable in float32",
         "the ghost provenance bit of the model is used only to classify an oracle failure as the open finding F-C02b (tainted) or a violation (untainted)",
     ],
-    partial_theorems=["C02_fresh_agrees_partial"],
+    partial_theorems=["C02_fresh_agrees_partial"],      # C02_taint_origin (which frames keep a tainted value) is still not proved
 )
